@@ -555,15 +555,24 @@ def ops_frame(rng):
     if mode == "time":
         op["time_axis"] = "t"
         op["time_width"] = rng.choice(["30d", "7d", "1d"])
+    if rng.random() < 0.3:
+        op["index"] = rng.sample(range(50), n)
     ops = [op]
     # chunks binned with the returned specifications add up to the whole
     k = rng.randint(1, min(3, n))
     cuts = sorted(rng.sample(range(1, n), k - 1)) if k > 1 else []
     bounds = [0] + cuts + [n]
     slots = []
+    labels = rng.choice(["default", "slice", "slice", "shuffled"])
     for ci in range(k):
         ch = rows[bounds[ci]:bounds[ci + 1]]
-        ops.append(dict(op, t=2 + ci, rows=ch, reuse=1))
+        cop = dict(op, t=2 + ci, rows=ch, reuse=1)
+        cop.pop("index", None)
+        if labels == "slice":        # df.iloc[a:b]: the chunk keeps the row labels of the whole frame
+            cop["index"] = list(range(bounds[ci], bounds[ci + 1]))
+        elif labels == "shuffled":   # a filtered / shuffled frame
+            cop["index"] = rng.sample(range(100), len(ch))
+        ops.append(cop)
         slots.append(2 + ci)
     acc = slots[0]
     for s in slots[1:]:
